@@ -5,6 +5,6 @@ CONSTANTS
   MaxLen = 3
   MaxKeys = 4
   MaxOps = 40
-  BlockLens = {1, 2, 5, 9, 16, 4000}
+  BlockLens = {0, 1, 2, 5, 9, 16, 4000}
   ValueKinds = {"u64", "void", "range", "vec"}
 CHECK_DEADLOCK FALSE
